@@ -23,6 +23,11 @@ CHECKS = {
          "Every path string of <=3 (quick) / <=4 (thorough) segments over {name,'.','..',''} with/without leading '/' is passed to every operation (both arguments of the copies, and as Filespace() argument followed by write/list/remove) of every view kind: memory child, child-of-child, disk root/child/grandchild, encrypted over either, read-only mask and its children, sub-path helper and nesting, cache children and caches over child views (committed before the comparison). Oracle: the snapshot of everything outside the view root (store tree, host directory, cache-visible tree) is byte-identical, and no returned content/listing/stat/existence answer belongs to a node outside the root.",
          "Segment bound as stated (the 'randomly beyond' part is not claimed); one store shape with same-named nodes inside and outside; the view's own root node counts as inside.",
          "DESIGN.md 3/C03"),
+ "C04": ("fault_enumeration",
+         "bounded exhaustive enumeration of stream cases (content x chunking x previous state x buffer x backend) and exhaustive single-fault (thorough: double-fault) positions during every copy helper call over all 25 backend pairs; bounded-preemption schedule exploration of the concurrent tree copy",
+         "Writers: every split of each content into <=3 chunks over every previous destination state on 5 backends, read back through ReadFile and Reader with 4 buffer sizes. Copy helpers (fshelper.Copy, Copier.Do for file and directory, StreamCopy) on 4 tree shapes for every source/destination backend pair, once fault-free (must succeed and be complete) and once per numbered call crossing the Filespace/Reader/Writer interfaces failing (error and short-write variants): nil result implies a byte-identical destination. fshelper.Copy additionally under every schedule with <=1 (thorough 2) preemptions.",
+         "Faults are injected by a harness-side Filespace wrapper (no source annotation); bool queries fail by answering false; 5 KiB is the largest content.",
+         "DESIGN.md 3/C04"),
  "C05": ("fault_enumeration",
          "bounded exhaustive enumeration of cipher/base/secret/salt/host-binding configurations x plaintexts x write/read paths; every truncation length and every single-byte corruption of the stored bytes; name-space lock-step with the tree model",
          "Round trip through all write-path/read-path pairs (incl. overwrite of shorter/longer content), substring secrecy of the raw bytes, nonce freshness, rejection under every other (secret,salt) of the pool, and for the stored bytes of each plaintext EVERY truncation length 0..N-1 and EVERY single-byte corruption (all 255 values for short files) must be answered with an error - never data, never a panic - on a fresh base each time; name-space operations are compared step by step with the tree model through the encrypted filespace.",
